@@ -13,6 +13,7 @@ FUNCTIONS = [
     ("verif_ghost.c11.statements_twice", LEM),
     ("verif_ghost.c11.sources_after_targets", LEM),
     "sqllineage.core.holders.SQLLineageHolder._build_digraph",
+    ("sqllineage.core.holders.ColumnLineageMixin.get_column_lineage", ["modeltypes", "config", "metadata", "holders", "holders_c06"]),
 ]
 SITE_CHECKS = [("pick sites: no result depends on which element a set hands out first (K3)", lambda repo: sitescan.pick_sites(repo, "C11"))]
 EXPLANATION = (
